@@ -60,6 +60,9 @@ type Profile struct {
 	BigBlocks bool
 	// DeferredRetries0 forces Retries 0 on deferred-check actions.
 	DeferredRetries0 bool
+	// PLongHold: percent of scenarios in which one sequence action of a scope with continuous checks is held for
+	// LongHold (250 ms).
+	PLongHold int
 }
 
 var ProfileDefault = Profile{
@@ -320,6 +323,23 @@ func (pf Profile) Gen(t *rapid.T) Scenario {
 	}
 	if pf.POverrun > 0 {
 		sc.Timeout5s = true
+	}
+	if pct(t, pf.PLongHold, "longHold") {
+		// hold the first action of the first sequence of the first block that is under a continuous check
+	search:
+		for pi := range sc.Plans {
+			p := &sc.Plans[pi]
+			for bi := range p.Blocks {
+				b := &p.Blocks[bi]
+				if (p.Cont != nil && p.Cont.Delay != 3) || (b.Cont != nil && b.Cont.Delay != 3) {
+					a := &b.Seqs[0].Actions[0]
+					if len(a.Script) > 0 {
+						a.Script[0].Gate = LongHoldGate
+						break search
+					}
+				}
+			}
+		}
 	}
 	return sc
 }
